@@ -81,6 +81,9 @@ pub static CURRENT_INDEX: std::sync::atomic::AtomicU64 = std::sync::atomic::Atom
 /// (the token-read budget of 5 M reads already cuts interpreter calls at about that point).
 pub const CPU_BUDGET_TICKS: u64 = 3000;
 pub const CPU_WATCHDOG_EXIT: i32 = 98;
+/// CPU time one case may use in total (600 s; the heaviest legitimate case uses a few seconds)
+pub const CASE_CPU_BUDGET_TICKS: u64 = 60_000;
+pub const CASE_WATCHDOG_EXIT: i32 = 96;
 
 /// CPU time (utime + stime, clock ticks) consumed so far by the thread `tid` of this process.
 fn thread_cpu_ticks(tid: u32) -> Option<u64> {
@@ -97,10 +100,24 @@ pub fn start_cpu_watchdog(report: Option<String>, replay_path: Option<String>) {
     std::thread::spawn(move || {
         let mut last_seq = u64::MAX;
         let mut ticks_at_first_seen = 0u64;
+        let mut last_index = u64::MAX;
+        let mut ticks_at_case_start = 0u64;
         loop {
             std::thread::sleep(std::time::Duration::from_millis(250));
             let (seq, depth) = (CALL_SEQ.load(Relaxed), CALL_DEPTH.load(Relaxed));
             let Some(ticks) = thread_cpu_ticks(tid) else { continue };
+            // one case that burns CASE_CPU_BUDGET_TICKS of CPU without finishing and without being stuck in one
+            // repository call is a loop in the harness itself: inconclusive, and no reason to wait for the parent's watchdog
+            let index = CURRENT_INDEX.load(Relaxed);
+            if index != last_index {
+                last_index = index;
+                ticks_at_case_start = ticks;
+            } else if ticks.saturating_sub(ticks_at_case_start) > CASE_CPU_BUDGET_TICKS && report.is_some() {
+                if let Some(path) = &report {
+                    let _ = std::fs::write(path, format!("{{\"index\": {}, \"harness_case_cpu_seconds\": {}}}", index, CASE_CPU_BUDGET_TICKS / 100));
+                }
+                std::process::exit(CASE_WATCHDOG_EXIT);
+            }
             if depth == 0 || seq != last_seq {
                 last_seq = seq;
                 ticks_at_first_seen = ticks;
